@@ -1934,9 +1934,14 @@ pub fn vtable_of_raw(raw: *const dyn ldpc_toolbox::decoder::LdpcDecoder) -> usiz
 
 #[macro_export]
 macro_rules! c18_types {
-    ($name:ident, $stubs:ident, $unw:expr; $($impl:ident, $sched:ident, $arith:ty, $osched:ident);+) => {
+    ($name:ident, $stubs:ident, $unw:expr; $($impl:ident, $sched:ident, $arith:ty, $osched:ident, $w:expr);+) => {
         $crate::$stubs! { $unw,
         fn $name() {
+            // inputs of the behavioural fallback (unused while every row has the documented type)
+            let x = $crate::macros::any_f64_1e30();
+            let mut llrs = [0.0f64; 3];
+            let mut i = 0;
+            while i < 3 { llrs[i] = $crate::macros::any_llr_dom(); i += 1; }
             $({
                 let built = DecoderImplementation::$impl.build_decoder(h_pair1x2());
                 // vtables of the expected and of the other-schedule decoder type, without building them:
@@ -1946,13 +1951,108 @@ macro_rules! c18_types {
                 let vb = $crate::macros::vtable_of(&built);
                 let ve = $crate::macros::vtable_of_raw(expected);
                 let vo = $crate::macros::vtable_of_raw(other);
-                // the documented arithmetic and schedule ...
-                assert!(vb == ve);
-                // ... (sanity of the oracle: distinct types have distinct vtables)
+                // sanity of the oracle: distinct types have distinct vtables
                 assert!(ve != vo);
                 core::mem::forget(built);
+                if vb != ve {
+                    // Not the documented type.  That alone is not a violation (the property is about behaviour):
+                    // decide it behaviourally, exactly like the pairing harness does.
+                    $crate::c18_pair_body!($impl, $sched, $arith, $w, 1, h_chain2x3, 3, false, [-1.0, 1.0], [1, 0], x, llrs);
+                }
             })+
             kani::cover!(true);
+        }}
+    };
+}
+
+// =====================================================================================
+// C04 float rules, formula level, under SURROGATE math on the exact small domain s/8:
+// every operation is exact there (dyadic rationals with small denominators), so any
+// algebraically equivalent implementation gives identical results, while a slip in the
+// formula (wrong operand, missing term, wrong fold) shows.  $fam: 0 phi, 1 tanh,
+// 2 min* approximation, 3 A-Min*.
+// =====================================================================================
+#[macro_export]
+macro_rules! c04_formula_f {
+    ($name:ident, $ty:ty, $f:ty, $anyf:path, $fam:expr, $clamp:expr, $d:expr, $unw:expr) => {
+        $crate::with_surrogate_stubs! { $unw,
+        fn $name() {
+            const D: usize = $d;
+            let mut vals = [0.0 as $f; D];
+            let mut msgs = [Message { source: 0usize, value: 0.0 as $f }; D];
+            let mut j = 0;
+            while j < D {
+                let v: $f = $anyf();
+                vals[j] = v;
+                msgs[j] = Message { source: $crate::macros::TAGS[j], value: v };
+                j += 1;
+            }
+            let mut a = <$ty>::new();
+            let mut out = [0.0 as $f; D];
+            let mut cnt = [0u8; D];
+            let mut bad = false;
+            a.send_check_messages(&msgs, |m| {
+                let j = $crate::macros::tag_index(m.dest, D);
+                if j < D { out[j] = m.value; cnt[j] += 1; } else { bad = true; }
+            });
+            assert!(!bad);
+            // the documented formulas, evaluated with the same (surrogate) elementary functions
+            let phi = |x: $f| -> $f { let x = if x > 1e-30 { x } else { 1e-30 }; -((0.5 * x).tanh().ln()) };
+            let ms = |x: $f, y: $f| -> $f { let r = (if x < y { x } else { y }) - (-(x - y).abs()).exp().ln_1p(); if r > 0.0 { r } else { 0.0 } };
+            let me = |x: $f, y: $f| -> $f { (if x < y { x } else { y }) - (-(x - y).abs()).exp().ln_1p() + (-(x + y)).exp().ln_1p() };
+            // least reliable input (first of minimal magnitude)
+            let mut amin = 0usize;
+            let mut k = 1;
+            while k < D { if vals[k].abs() < vals[amin].abs() { amin = k; } k += 1; }
+            let mut j = 0;
+            while j < D {
+                assert!(cnt[j] == 1);
+                // sign of the product of the other inputs
+                let mut neg = false;
+                let mut k = 0;
+                while k < D { if k != j && vals[k] < 0.0 { neg = !neg; } k += 1; }
+                let expect: $f = if $fam == 0 {
+                    let mut s: $f = 0.0;
+                    let mut k = 0;
+                    while k < D { if k != j { s += phi(vals[k].abs()); } k += 1; }
+                    let m = phi(s);
+                    if neg { -m } else { m }
+                } else if $fam == 1 {
+                    let mut p: $f = 1.0;
+                    let mut k = 0;
+                    while k < D {
+                        if k != j {
+                            let h = 0.5 * vals[k];
+                            let h = if h > $clamp { $clamp } else if h < -$clamp { -$clamp } else { h };
+                            p *= h.tanh();
+                        }
+                        k += 1;
+                    }
+                    2.0 * p.atanh()
+                } else if $fam == 2 {
+                    let mut acc: $f = -1.0;
+                    let mut k = 0;
+                    while k < D {
+                        if k != j { let x = vals[k].abs(); acc = if acc < 0.0 { x } else { ms(x, acc) }; }
+                        k += 1;
+                    }
+                    if neg { -acc } else { acc }
+                } else {
+                    let mut acc: $f = -1.0;
+                    let mut k = 0;
+                    while k < D {
+                        if k != amin { let x = vals[k].abs(); acc = if acc < 0.0 { x } else { me(x, acc) }; }
+                        k += 1;
+                    }
+                    let m = if j == amin { acc } else { me(acc, vals[amin].abs()) };
+                    if neg { -m } else { m }
+                };
+                // (== on floats: +0.0 and -0.0 agree)
+                assert!(out[j] == expect);
+                j += 1;
+            }
+            kani::cover!(out[0] > 0.0);
+            kani::cover!(out[0] < 0.0);
         }}
     };
 }
